@@ -239,6 +239,14 @@ pub fn decode(data: &[u8]) -> Result<(Decoded, Header), String> {
 			end = end.max(off + len);
 		}
 	}
+	if let (Some(lo), Some(hi)) = (out.tiles.keys().map(|c| c.z).min(), out.tiles.keys().map(|c| c.z).max()) {
+		if lo < h.min_zoom || hi > h.max_zoom {
+			out.notes.push(format!("header zoom range {}..{} does not contain the tiles' levels {lo}..{hi}", h.min_zoom, h.max_zoom));
+		}
+	}
+	if h.bounds[0] > h.bounds[2] || h.bounds[1] > h.bounds[3] {
+		out.notes.push(format!("header bounds {:?} are inverted", h.bounds));
+	}
 	if h.addressed != 0 && h.addressed != addressed {
 		out.notes.push(format!("header says {} addressed tiles, directories address {}", h.addressed, addressed));
 	}
